@@ -244,6 +244,8 @@ def run_case(ctx, n):
     for _ in range(ctx.pick(2, 4)):
         check_print(ctx, rng, conn, entries, case, full_reload=not any(type(e).__name__ == 'Pad' for e in entries))
     check_print_clauses(ctx, rng, conn, entries, case)
+    for _ in range(ctx.pick(2, 4)):
+        check_period_reference(ctx, rng, conn, entries, options, case)
     if rng.random() < ctx.pick(0.5, 0.3):
         check_shell_route(ctx, rng, led, conn, case)
 
@@ -311,6 +313,69 @@ def check_print_clauses(ctx, rng, conn, entries, case):
     if perrors or ptx != stx:
         ctx.violation('c14.print_clauses', f'PRINT FROM {clauses}: printed transactions differ from the entries of the SELECT route ({len(ptx)} vs {len(stx)})',
                       dict(case, statement=f'PRINT FROM {clauses}'))
+
+
+PERIOD_CHOICES = [(datetime.date(2020, 1, 1), None, False), (None, datetime.date(2020, 7, 1), False), (datetime.date(2019, 7, 1), datetime.date(2020, 7, 1), True),
+                  (None, True, False), (None, None, True), (datetime.date(2019, 3, 15), True, False), (datetime.date(2020, 4, 1), datetime.date(2021, 4, 1), False),
+                  (datetime.date(2020, 1, 1), None, True)]
+
+
+def check_period_reference(ctx, rng, conn, entries, options, case):
+    """PRINT / BALANCES / JOURNAL with a filter expression AND period clauses against the reference period view
+    (bqverif/period.py): PRINT emits exactly the directives of the view that satisfy the expression, in order; BALANCES and
+    JOURNAL are the per-account sums / the register of the view's postings."""
+    from beanquery import compiler, query_execute
+    from beancount.core import data
+    from beancount.parser import options as bopts
+    from .. import period
+    open_, close, clear = rng.choice(PERIOD_CHOICES)
+    ftext, pred = rng.choice([f for f in PRINT_FILTERS if 'tags' not in f[0]])
+    expr = ftext[len('FROM '):] if ftext else None
+    clauses = period.clause_text(open_, close, clear, expr)
+    view = period.reference_view(entries, options, open_, close, clear)
+    text = f'PRINT FROM {clauses}'
+    case = dict(case, statement=text)
+    out = io.StringIO()
+    try:
+        query_execute.execute_print(compiler.compile(conn, conn.parse(text)), out)
+    except Exception as exc:  # noqa: BLE001
+        ctx.violation(f'c14.print_failed.{monitors.classify_exception(exc)}', f'{text}: {type(exc).__name__}: {exc}', case)
+        return
+    pentries, perrors, _ = reparse(out.getvalue(), case['ledger'])
+    exp = [e for e in view if pred(e)]
+    ctx.count('obs.period_reference_cases')
+    ctx.count('obs.period_reference_synthesized_entries', sum(1 for e in view if not any(e is o for o in entries)))
+    ctx.case((case['digest'], text), len(exp) >= 2 and len(view) != len(entries))
+    if perrors:
+        ctx.violation('c14.print_not_beancount_syntax', f'{text}: printed text does not parse: {perrors[0].message}', case)
+        return
+    # (the Beancount parser sorts what it reads; the line numbers it records give the order in which PRINT emitted them)
+    pentries = sorted(pentries, key=lambda e: e.meta['lineno'])
+    got_n, exp_n = [normalise(e) for e in pentries], [normalise(e) for e in exp]
+    if got_n != exp_n:
+        k = next(i for i, (a, b) in enumerate(zip(got_n + [None], exp_n + [None])) if a != b)
+        ctx.violation('c14.print_vs_period_view', f'{text}: printed directive {k} is {got_n[k] if k < len(got_n) else None}; the period view '
+                      f'(OPEN, then CLOSE, then CLEAR) filtered by the expression has {exp_n[k] if k < len(exp_n) else None} ({len(got_n)} printed, {len(exp_n)} expected)', case)
+        return
+    # BALANCES / JOURNAL over the same view (period clauses only: their WHERE/FROM expressions are covered above)
+    pclauses = period.clause_text(open_, close, clear)
+    rows = period.posting_rows(view)
+    try:
+        bal = conn.execute(f'BALANCES FROM {pclauses}').fetchall()
+        jou = conn.execute(f'JOURNAL FROM {pclauses}').fetchall()
+    except Exception as exc:  # noqa: BLE001
+        ctx.violation(f'c14.period_statement_failed.{monitors.classify_exception(exc)}', f'BALANCES/JOURNAL FROM {pclauses}: {exc!r}', case)
+        return
+    sums = {}
+    for d, fl, a, pos_ in rows:
+        sums.setdefault(a, []).append(pos_)
+    if {a: i for a, i in bal} != {a: inv_of(v) for a, v in sums.items()}:
+        bad = sorted(a for a in set(sums) | {a for a, _ in bal} if dict(bal).get(a) != (inv_of(sums[a]) if a in sums else None))
+        ctx.violation('c14.balances_vs_period_view', f'BALANCES FROM {pclauses}: differs from the per-account sums over the period view for {bad[:3]}', dict(case, statement=f'BALANCES FROM {pclauses}'))
+        return
+    if [(j[0], j[1], j[4], j[5]) for j in jou] != rows:
+        ctx.violation('c14.journal_vs_period_view', f'JOURNAL FROM {pclauses}: its register ({len(jou)} rows) differs from the postings of the period view ({len(rows)})',
+                      dict(case, statement=f'JOURNAL FROM {pclauses}'))
 
 
 def run(ctx):
